@@ -355,9 +355,9 @@ def to_coq(case, obs):
             eff = a["limit"]
         again.append(f"({coq_option(eff, _fl, 'float')}, {coq_option(a.get('tyme'), _fl, 'float')})")
     return ("{| SchedCase.c_prog := %s; SchedCase.c_trace := %s; SchedCase.c_dones := %s; SchedCase.c_tyme := %s; "
-            "SchedCase.c_scheds := %s; SchedCase.c_escape := %s; SchedCase.c_again := %s |}" % (
+            "SchedCase.c_scheds := %s; SchedCase.c_escape := %s; SchedCase.c_again := %s; SchedCase.c_async := %s |}" % (
                 prog_to_coq(case), tr, dones, _hexfl(obs["tyme"]), scheds, coq_bool(obs["raised"].startswith("escape")),
-                coq_list(again, "option float * option float")))
+                coq_list(again, "option float * option float"), coq_bool(case.get("mode") == "ado")))
 
 
 # ----------------------------------------------------------------------------- trace utilities for oracles
